@@ -113,8 +113,9 @@ const (
 
 var errFlight = errors.New("the create function fails (drawn by the case)")
 
-// MaxReachIters bounds the open iterators of a reachability case.
-const MaxReachIters = 8
+// MaxReachIters bounds the open iterators of a reachability case (as many as the C10 generator opens: more entries can
+// be pinned at the same time than ReachSlack allows to stay behind once the iterators are closed).
+const MaxReachIters = 24
 
 // ReachSlack is the number of KEY objects of removed entries which a container may keep
 // reachable beyond the entries pinned by open iterators. It does not depend on the size of the
@@ -175,6 +176,7 @@ type ReachInfo struct {
 	Removed       int         // entries that left the container
 	Measures      int         // measurement points evaluated
 	MeasuresOpen  int         // ... with at least one iterator open
+	MaxIters      int         // most iterators open at the same time
 	Cycles        int         // garbage collections run by them
 	Watched       [nRoles]int // objects of removed entries put under watch
 	MaxRetained   [nRoles]int // most objects of removed entries still reachable at the end of a measurement made with every iterator closed
@@ -227,6 +229,7 @@ func (i ReachInfo) Classes() []string {
 	add(i.ExpiredSwaps > 0, "reach_expired_entries_replaced")
 	add(i.MeasuresOpen > 0, "reach_measured_with_open_iterators")
 	add(i.ThinUnderIter, "reach_removals_under_open_iterators")
+	add(i.ThinUnderIter && i.MaxIters >= 9, "reach_removals_under_ge_9_open_iterators")
 	add(i.RemoveAddIdle, "reach_measured_idle_after_removal_and_exactly_one_insertion")
 	add(i.RemoveIdle, "reach_measured_idle_after_removal_without_insertion")
 	add(i.Flights > 0, "reach_creation_overtaken_in_flight_by_remove_or_clear")
@@ -599,6 +602,7 @@ func (r *reachRunner) exec(op ReachOp) {
 				return
 			}
 			r.b.advance(r.b.open()-1, adv)
+			r.info.MaxIters = max(r.info.MaxIters, r.b.open())
 		}
 	case RAdv:
 		k := clip(op.N, 0, len(r.slots)+1)
